@@ -55,7 +55,11 @@ def run(rep, tier, seed):
     from gram import layered_grammar
     cases += lf.bnf_cases(rng, 250 if tier == "quick" else 3000, tts=("LALR", "LALR_PAGER"), algo="LR",
                           max_len=3 if tier == "quick" else 4, n_sent=12, n_mut=12, generator=layered_grammar)
-    from gram import diamond_grammar
+    from gram import diamond_grammar, seq_grammar, twins_grammar
+    cases += lf.bnf_cases(rng, 80 if tier == "quick" else 1200, tts=("LALR", "LALR_PAGER"), algo="LR",
+                          max_len=3, n_sent=14, n_mut=14, generator=seq_grammar)
+    cases += lf.bnf_cases(rng, 60 if tier == "quick" else 900, tts=("LALR", "LALR_PAGER"), algo="LR",
+                          max_len=3, n_sent=12, n_mut=12, generator=twins_grammar)
     cases += lf.bnf_cases(rng, 100 if tier == "quick" else 1500, tts=("LALR", "LALR_PAGER"), algo="LR",
                           max_len=3, n_sent=12, n_mut=12, generator=diamond_grammar)
     lf.run_cases(cases, extra_requests=extra_requests)
@@ -122,7 +126,9 @@ def check_cases(rep, cases, proofs_ok):
     rep.counters["distinct_nontrivial"] = len(distinct)
     rep.cov["rule"] = ("random BNF grammars (1-4 nonterminals, <=3 alternatives, rhs 0-4, EMPTY, recursion of any kind) and layered "
                        "grammars (5-11 nonterminals, unit-rule chains joining at shared nonterminals, nullable leaves) and diamond grammars (2-3 unit-rule chains of different "
-                       "lengths joining above a nullable/recursive leaf, extra contexts; LALR(1) by construction) "
+                       "lengths joining above a nullable/recursive leaf, extra contexts; LALR(1) by construction), seq grammars (sequences of "
+                       "optional / nullable left- and right-recursive / list nonterminals over distinct terminals) and twins grammars "
+                       "(nonterminals sharing a terminal prefix used in several contexts, directly or through a wrapper) "
                        "x {LALR, LALR_PAGER}; in scope iff Lean `Table.rawDeterministic` holds of the dumped items; inputs: all "
                        "strings up to the length bound over the grammar's terminals + random sentences + mutations; "
                        "distinct = (grammar, table type, input)")
